@@ -55,6 +55,21 @@ Definition kept_spec_b (grid : list Z) (k : Z) (kept : list Z) : bool :=
                         (zrange 1 (Z.to_nat (Z.max 1 (zlen grid - 1))))
   end.
 
+(* stage 3 -- which regular stride: the reading fixed by the anchored mechanism ("stride = ceil(n_chunks /
+   n_chunks_kept)"), stated without the formula: the DENSEST regular selection from the first chunk that
+   keeps no more than k chunks, i.e. no smaller stride would fit in k *)
+Definition Kept_Dense (grid : list Z) (k : Z) (ivs : list iv) : Prop :=
+  exists s, Kept_Stride grid k s ivs /\ forall s', 1 <= s' < s -> k < cdiv (zlen grid - 1) s'.
+
+Definition kept_dense_b (grid : list Z) (k : Z) (kept : list Z) : bool :=
+  match unflat kept with
+  | None => false
+  | Some ivs => existsb (fun s => kept_stride_b grid k s ivs &&
+                                  forallb (fun s' => k <? cdiv (zlen grid - 1) s')
+                                          (zrange 1 (Z.to_nat (s - 1))))
+                        (zrange 1 (Z.to_nat (Z.max 1 (zlen grid - 1))))
+  end.
+
 (* consecutive kept chunks: a <= b, and the next one starts at or after b (equality allowed:
    with stride 1 every inner bound appears twice) *)
 Fixpoint ordered (lo : Z) (ivs : list iv) : Prop :=
